@@ -4,6 +4,7 @@
  * (real prchunk.c, dt-io.c, proc_line); the simulated read() owns the stream. */
 #include "engine.h"
 #include "models.h"
+#include "invgen.h"
 #include <string.h>
 #include <algorithm>
 
@@ -313,6 +314,72 @@ struct StreamEngine : Engine {
 		p.argv = tc.argv;
 		p.par["model"] = tc.model;
 		p.has_input = true;
+		/* every third plan takes its invocation from the shared grammar: any option set of the three filters, one
+		 * input format; the replacement text of a value is what the same tool prints for it as an argument */
+		inv::Inv giv;
+		bool gram = cfg.iopt("grammar", 1) && r.chance(1, 3);
+		std::vector<std::string> gtoks;
+		if (gram) {
+			static const char *st[] = {"dconv", "dadd", "dround"};
+			inv::GenOpt go;
+			go.tool = st[r.below(3)];
+			go.force_mode = 2;
+			go.max_if = 1;
+			go.one_line = true;
+			go.sed_default_forms = true;
+			giv = inv::rand_inv(r, go);
+			p.argv = inv::inv_argv(giv);
+			p.par["model"] = "argmode";
+			p.par["pos_at"] = std::to_string(giv.pos_at + 1);
+			for (auto &z : giv.zones) {
+				std::string data;
+				if (real_file_bytes("/usr/share/zoneinfo/" + z, data)) {
+					SimFile f;
+					f.path = "/usr/share/zoneinfo/" + z;
+					f.data = data;
+					bool have = false;
+					for (auto &g : p.files)
+						have |= g.path == f.path;
+					if (!have)
+						p.files.push_back(f);
+				}
+			}
+		}
+		auto gline = [&](size_t target_len, int flavour) {
+			/* flavour as in gen_line; values in the invocation's own input format, set off by blanks */
+			if (flavour == 3)
+				return std::string();
+			if (flavour == 0)
+				return safe_lit(r, target_len, r.chance(1, 6));
+			std::string s2;
+			int nt = (int)r.range(1, 3);
+			if (r.chance(1, 10))
+				nt = (int)r.range(4, 10);
+			for (int i = 0; i < nt; i++) {
+				size_t ll = target_len > 24 ? (size_t)r.below(target_len / nt) : (size_t)r.below(6);
+				std::string lit = safe_lit(r, ll, false);
+				while (!lit.empty() && lit.back() == '\r')
+					lit.pop_back();
+				if (!lit.empty() || i)
+					lit += r.chance(1, 6) ? "\t" : " ";
+				s2 += lit;
+				std::string tok = inv::inv_value(r, giv);
+				for (int tries = 0; tries < 8 && (tok.empty() || tok[0] == '-' || tok == " "); tries++)
+					tok = inv::inv_value(r, giv);
+				if (tok.empty() || tok[0] == '-' || tok == " ")
+					tok = "x";
+				if (std::find(gtoks.begin(), gtoks.end(), tok) == gtoks.end())
+					gtoks.push_back(tok);
+				s2 += tok;
+			}
+			if (r.chance(1, 2)) {
+				std::string lit = safe_lit(r, (size_t)r.below(8), false);
+				while (!lit.empty() && lit.back() == '\r')
+					lit.pop_back();
+				s2 += " " + lit;
+			}
+			return s2;
+		};
 		bool thorough = cfg.tier == "thorough";
 
 		/* ---- volume class ---- */
@@ -366,7 +433,7 @@ struct StreamEngine : Engine {
 		for (size_t i = 0; i < npool; i++) {
 			int fl = (int)r.below(10);
 			size_t len = maxlen ? (size_t)r.range(maxlen > 4 ? maxlen - 4 : 0, maxlen) : 0;
-			pool.push_back(gen_line(r, len, fl < 4 ? 0 : fl < 7 ? 1 : fl < 8 ? 4 : fl < 9 ? 2 : 3));
+			pool.push_back(gram ? gline(len, fl < 4 ? 0 : fl < 9 ? 1 : 3) : gen_line(r, len, fl < 4 ? 0 : fl < 7 ? 1 : fl < 8 ? 4 : fl < 9 ? 2 : 3));
 		}
 		/* terminator style for this stream */
 		unsigned ts = (unsigned)r.below(10);	/* 0-5 LF, 6-7 CRLF, 8-9 mixed */
@@ -378,7 +445,7 @@ struct StreamEngine : Engine {
 			else {
 				unsigned fl = (unsigned)r.below(20);
 				size_t len = r.chance(1, 4) ? maxlen : (size_t)r.below(maxlen + 1);
-				c = gen_line(r, len, fl < 7 ? 0 : fl < 13 ? 1 : fl < 16 ? 4 : fl < 19 ? 2 : 3);
+				c = gram ? gline(len, fl < 7 ? 0 : fl < 19 ? 1 : 3) : gen_line(r, len, fl < 7 ? 0 : fl < 13 ? 1 : fl < 16 ? 4 : fl < 19 ? 2 : 3);
 			}
 			in += c;
 			bool crlf = ts >= 8 ? r.chance(1, 2) : ts >= 6;
@@ -390,6 +457,12 @@ struct StreamEngine : Engine {
 		if (nlines && r.chance(1, 25))
 			in.insert(0, "\n");	/* first byte is a newline */
 		p.input = in;
+		for (auto &t : gtoks) {
+			Op o;
+			o.kind = "tok";
+			o.s = t;
+			p.ops.push_back(o);
+		}
 
 		/* ---- delivery schedule ---- */
 		size_t ns = (size_t)r.range(1, 10);
@@ -498,6 +571,98 @@ struct StreamEngine : Engine {
 		if (memo.size() < 200000)
 			memo[key] = {status, out};
 		return true;
+	}
+
+	/* ---- the value as an argument of the same tool with the same options: its replacement text ---- */
+	std::map<std::string, std::string> argmemo;	/* "" = the tool does not take it */
+	bool argmode(const Plan &base, const std::string &tok, Stats &st, std::string &repl)
+	{
+		std::vector<std::string> a;
+		size_t pos = (size_t)base.ipar("pos_at", 0), removed = 0;
+		for (size_t i = 0; i < base.argv.size(); i++) {
+			const std::string &x = base.argv[i];
+			if (i >= 1 && i <= 2 && i < pos && (x == "-S" || x == "-E")) {
+				removed++;
+				continue;
+			}
+			a.push_back(x);
+		}
+		pos = std::min(a.size(), pos - removed);
+		/* dround rounds an argument in the source zone and a stdin value after the conversion to UTC (met while
+		 * building this oracle; a matter of dround's own semantics, not of streams): with --from-zone the
+		 * reference is the value alone on a line in plain stdin mode */
+		bool via_stdin = base.argv[0] == "dround" && std::find(base.argv.begin(), base.argv.end(), "--from-zone") != base.argv.end();
+		if (!via_stdin)
+			a.insert(a.begin() + (long)pos, tok);
+		std::string key;
+		for (auto &x : a)
+			key += x + '\1';
+		if (via_stdin)
+			key += "\2" + tok;
+		auto it = argmemo.find(key);
+		if (it != argmemo.end()) {
+			repl = it->second;
+			st.mix_value(0, repl);
+			return !repl.empty();
+		}
+		Plan q;
+		q.engine = "stream";
+		q.variant = base.variant;
+		q.argv = a;
+		q.env = base.env;
+		q.clock = base.clock;
+		q.files = base.files;
+		if (via_stdin) {
+			q.has_input = true;
+			q.input = tok + "\n";
+		}
+		RunResult r = run_plan(q);
+		st.add_ref(r);
+		repl.clear();
+		if (!r.crashed() && !r.flags && r.exit_code == 0 && !r.out.empty() && r.out.back() == '\n' && r.out.find('\n') == r.out.size() - 1)
+			repl = r.out.substr(0, r.out.size() - 1);
+		st.mix_value(0, repl);
+		if (argmemo.size() < 200000)
+			argmemo[key] = repl;
+		return !repl.empty();
+	}
+	/* -1: not judged (digits outside the generated values, or a value the tool refuses as an argument);
+	 * 0: a line without values; 1: a line with values */
+	int expect_argmode(const Plan &p, const std::string &c, Stats &st, std::string &exp)
+	{
+		std::vector<const std::string *> toks;
+		for (auto &o : p.ops)
+			if (o.kind == "tok" && !o.s.empty())
+				toks.push_back(&o.s);
+		std::sort(toks.begin(), toks.end(), [](const std::string *a, const std::string *b) { return a->size() > b->size(); });
+		bool empty_mode = std::find(p.argv.begin(), p.argv.end(), "-E") != p.argv.end();
+		exp.clear();
+		size_t i = 0, n = c.size(), nt = 0;
+		while (i < n) {
+			const std::string *m = nullptr;
+			bool atword = i == 0 || c[i - 1] == ' ' || c[i - 1] == '\t';
+			if (atword)
+				for (auto t : toks)
+					if (c.compare(i, t->size(), *t) == 0 && (i + t->size() == n || c[i + t->size()] == ' ' || c[i + t->size()] == '\t')) {
+						m = t;
+						break;
+					}
+			if (m) {
+				std::string repl;
+				if (!argmode(p, *m, st, repl))
+					return -1;
+				exp += repl;
+				i += m->size();
+				nt++;
+				continue;
+			}
+			if (isdig(c[i]))
+				return -1;
+			exp += c[i++];
+		}
+		if (nt == 0 && empty_mode)
+			exp.clear();
+		return nt ? 1 : 0;
 	}
 
 	std::string predicates(const Plan &p)
@@ -623,6 +788,16 @@ struct StreamEngine : Engine {
 			v.detail = "unexpected simulator flag: " + r.note;
 			return v;
 		}
+		/* an option set the tool refuses outright (every run fails before it reads) says nothing about streams */
+		if (p.par.count("model") && p.par.at("model") == "argmode") {
+			std::string out, why;
+			int status = 0;
+			if (single(p, "", st, out, status, why) && out.empty() && status != 0) {
+				if (collect)
+					st.named["grammar_invocations_refused_by_the_tool"]++;
+				return v;
+			}
+		}
 		/* ---- expected output from per-line runs (oracle 2) ---- */
 		std::vector<std::string> t(lines.size());
 		bool any_single_nonzero = false;
@@ -649,7 +824,19 @@ struct StreamEngine : Engine {
 			const std::string &c = lines[i].content;
 			std::vector<Tok> toks;
 			std::string mk = p.par.count("model") ? p.par.at("model") : "none";
-			if (mk != "none" && scan_tokens(c, toks)) {
+			if (mk == "argmode") {
+				std::string exp;
+				int kind = expect_argmode(p, c, st, exp);
+				if (collect && kind >= 0)
+					st.named[kind ? "oracle3_argmode_token_lines" : "oracle3_argmode_literal_lines"]++;
+				if (kind >= 0 && exp != t[i]) {
+					v.ok = false;
+					v.cls = "stream/transparency";
+					v.detail = argv_str(p.argv) + ": line " + cquote(c, 80) + " came out as " + cquote(t[i], 80) + ", expected " + cquote(exp, 80) +
+						   " (each value replaced by what the tool prints for it as an argument)";
+					return v;
+				}
+			} else if (mk != "none" && scan_tokens(c, toks)) {
 				std::string exp;
 				size_t a = 0;
 				for (auto &tk : toks) {
@@ -780,7 +967,7 @@ struct StreamEngine : Engine {
 				return v;
 			}
 		}
-		if (!fault) {
+		if (!fault && !lines.empty()) {
 			bool nz = r.exit_code != 0;
 			if (nz != any_single_nonzero) {
 				v.ok = false;
